@@ -365,7 +365,15 @@ func writeFileNode(p string, n *node) error {
 	}
 	mode := os.FileMode(0o644)
 	if n.X {
-		mode = 0o755
+		// "executable" comes in several modes (chmod +x under umask 077, chmod u+x, install -m 700)
+		switch len(content(n.C)) {
+		case 1:
+			mode = 0o700
+		case 2:
+			mode = 0o744
+		default:
+			mode = 0o755
+		}
 	}
 	return os.Chmod(p, mode)
 }
